@@ -287,6 +287,50 @@ def run(chk):
             chk.ob("C18-D6.flush", o["function"], o["construct"], o["ok"], o["where"], o["detail"], o["expected"])
     chk.floor("C18-D6.flush", n6, 4, "evaluations of the candidates callback")
 
+    # ------------------------------------------------------------------ D7 the output buffer of a job has exactly the size of the job
+    chk.rule("C18-D7.extent", "a helper of constructCommon that prepares the output buffer of a job (takes the points by const reference and the values by reference) gives the values an exact "
+                              "size on every path: resize(expression over the points), clear(), or a library call that resizes them. A buffer that is only grown keeps the surplus of a longer "
+                              "earlier batch, and CompleteStorage::add() appends all of it: later values are paired with the wrong points")
+    nbuf = 0
+    for fn in db.fns("TasGrid::constructCommon", [CS]):
+        for name, (l, d) in lambda_decls(db, fn).items():
+            ps = l.params()
+            if len(ps) != 2 or "const" not in ps[0].get("t", "") or "std::vector<double>" not in ps[0].get("t", "") or \
+                    "std::vector<double> &" not in ps[1].get("t", "") or "const" in ps[1].get("t", ""):
+                continue
+            ydid = ps[1]["did"]
+
+            def sizes(n, ydid=ydid):
+                if n.get("k") != "CXXMemberCallExpr":
+                    return False
+                cal = short(callee(n) or "")
+                o = call_object(n)
+                so = strip(o) if o is not None else None
+                if cal in ("resize", "clear", "assign") and so is not None and so.get("did") == ydid:
+                    return True
+                if cal.startswith("evaluate") and any((strip(a) or {}).get("did") == ydid for a in call_args(n)):
+                    return True
+                return False
+            # every path from the entry to the exit passes a sizing call
+            cfg = l.cfg
+            seen, work, leak = set(), [cfg.entry], False
+            while work:
+                b = work.pop()
+                if b in seen:
+                    continue
+                seen.add(b)
+                if any(isinstance(e, int) and l.nodes.get(e) is not None and sizes(l.nodes[e]) for e in cfg.blocks[b]["e"]):
+                    continue
+                if b == cfg.exit:
+                    leak = True
+                    break
+                work.extend(cfg.succs(b))
+            nbuf += 1
+            chk.saw(l)
+            chk.ob("C18-D7.extent", l.key, "`%s` is given an exact size on every path of %s" % (ps[1].get("name"), name), not leak, l.where,
+                   "" if not leak else "a path returns without resize()/clear()/evaluate*(): the buffer keeps the length of an earlier, longer batch")
+    chk.floor("C18-D7.extent", nbuf, 4, "buffer-preparing helpers (instantiations)")
+
     return ("Static rule discharge (R-LOCKSET on AST scopes, who-may-call for lambdas touching guarded data, branch-edge dominance for the unsigned budget difference, pairing of the "
             "running counter with the running list, join/notify presence) over constructCommon<true,*>, the threaded loadNeededValues and CandidateManager. "
             "Deadlock freedom, lost wake-ups and exactly-once over all schedules are properties of interleavings and are not decided; these are necessary structural conditions.")
